@@ -139,7 +139,7 @@ def rows_coq(rows):
 
 def term_of(c, p):
     return '(PC %s %d%%nat %s %s %s %s %d %d %d %d %d)' % (
-        cfg_coq(c), c['budget'], dv.coq_list([str(x) for x in c['sched']]), ls_common.zpairs(p['steps']), rows_coq(p['log']),
+        cfg_coq(c), ls_common.fuel_of(c['budget'], p['status']), dv.coq_list([str(x) for x in c['sched']]), ls_common.zpairs(p['steps']), rows_coq(p['log']),
         dv.zlit(p['ret']), p['live'], p['wr'], p['q'], p['blk'], p['status'])
 
 
